@@ -211,6 +211,7 @@ impl Monitor for C09 {
     fn mandatory(&self) -> Vec<&'static str> {
         vec![
             "updates_ok",
+            "groups_with_more_than_30_members",
             "several_changes_to_one_address_in_one_block",
             "re_adds_after_removal",
             "queries_at_a_change_height",
@@ -235,7 +236,15 @@ impl Monitor for C09 {
         }
         let mut g = Group::new(&mut h.rng);
         let hostile = h.rng.chance(1, 4);
-        let members = gen_members(&mut h.rng, hostile);
+        let mut members = gen_members(&mut h.rng, hostile);
+        if !hostile && h.idx % 12 == 1 {
+            // a group larger than the biggest listing page
+            let extra = 31 + h.rng.below_usize(30);
+            for i in 0..extra {
+                members.push((crate::direct::mk_addr(&format!("bulk-{i:02}")), 1 + h.rng.below(9)));
+            }
+            h.out.count("groups_with_more_than_30_members");
+        }
         let admin = pool().actors[0].clone();
         let r = g.instantiate(Some(admin.clone()), &members);
         h.out.evaluations += 1;
